@@ -18,7 +18,7 @@ PUBLIC INTERFACE
 
     G.ENV_KWARGS                  -> kwargs for jinja2.Environment (loopcontrols extension)
     G.programs(max_nodes, pool=POOL2, profile="mid", max_depth=3, shard=None,
-               canonical=True, min_nodes=0)
+               canonical=None, min_nodes=0)
                                   -> generator of programs (tuples of statements), simplest
                                      first (by node count), deterministic order.
                                      shard=(k, K): only programs whose FIRST top-level
@@ -27,7 +27,9 @@ PUBLIC INTERFACE
                                      canonical=True keeps only programs whose pool
                                      variables first occur in pool order (a before b
                                      before c): one representative per variable
-                                     permutation class.
+                                     permutation class.  Default (None): True for the
+                                     profiles whose alphabet is closed under permuting
+                                     the pool ("full", "alias"), False otherwise.
     G.count(max_nodes, pool, profile, ...)           -> number of programs (same arguments)
     G.with_epilogue(prog, pool)   -> prog + ("|", {{ a }}, "|", {{ b }} ...) observation tail
     G.to_source(prog, rename=None)-> Jinja source; rename = {identifier: identifier} applied
@@ -478,6 +480,9 @@ def alphabet(pool, profile):
       "full"  every statement kind and variant of the mini-language
       "mid"   every statement kind, one or two variants each
       "core"  set / out / if / for / with / macro+call on two variables
+      "tiny"  ten labels: the scoping skeleton (out, set, if, for, with, macro, call)
+      "tiny2" ten labels: block set, filter block, recursive loop, namespace store
+      "tiny3" twelve labels: macro parameters/defaults, call block, caller, break
       "alias" set / out / if / for / with on the whole pool (can-alias subset)
     """
     P = list(pool)
@@ -485,7 +490,7 @@ def alphabet(pool, profile):
     pairs = [(x, y) for x in P for y in P if x != y]
     if profile == "full":
         a["out"] = ([V(x) for x in P] + [("add1", V(x)) for x in P] + [("def", x) for x in P]
-                    + [("cat", V(x), V(y)) for x, y in pairs if x < y] + [C(1), ("nsget", NS, "x")])
+                    + [("cat", V(x), V(y)) for x, y in pairs] + [C(1), ("nsget", NS, "x")])
         a["set"] = ([(x, C(1)) for x in P] + [(x, C(2)) for x in P] + [(x, V(y)) for x, y in pairs]
                     + [(x, ("add1", V(x))) for x in P] + [(x, ("cat", V(x), V(y))) for x, y in pairs]
                     + [(x, ("def", x)) for x in P] + [(x, V(x)) for x in P])
@@ -496,7 +501,7 @@ def alphabet(pool, profile):
         a["loopctl"] = [("break",), ("continue",)]
         a["with"] = ([()] + [((x, C(1)),) for x in P] + [((x, V(y)),) for x, y in pairs]
                      + [((x, V(x)),) for x in P] + [((x, ("add1", V(x))),) for x in P]
-                     + [((x, V(y)), (y, V(x))) for x, y in pairs if x < y])
+                     + [((x, V(y)), (y, V(x))) for x, y in pairs])
         a["macro"] = ([()] + [((x, None),) for x in P] + [((x, C(1)),) for x in P]
                       + [((x, V(y)),) for x, y in pairs] + [((x, V(x)),) for x in P]
                       + [((x, None), (y, V(x))) for x, y in pairs] + [((x, V(y)), (y, C(2))) for x, y in pairs])
@@ -505,7 +510,9 @@ def alphabet(pool, profile):
                      + [("call", MACRO, (), ((x, C(1)),)) for x in P]
                      + [("call", MACRO, (C(1), C(2)), ())])
         a["caller"] = [("caller", ()), ("caller", (C(1),))] + [("caller", (V(x),)) for x in P]
-        a["callblock"] = ([((), c) for c in a["call"][:3]] + [((x,), ("call", MACRO, (), ())) for x in P]
+        a["callblock"] = ([((), ("call", MACRO, (), ())), ((), ("call", MACRO, (C(1),), ()))]
+                          + [((), ("call", MACRO, (V(x),), ())) for x in P]
+                          + [((x,), ("call", MACRO, (), ())) for x in P]
                           + [((x,), ("call", MACRO, (V(y),), ())) for x in P for y in P])
         a["filter"] = [True]
         a["bset"] = list(P)
@@ -539,6 +546,41 @@ def alphabet(pool, profile):
         a["with"] = [(), ((x, V(y)),)]
         a["macro"] = [(), ((x, None),)]
         a["call"] = [("call", MACRO, (), ()), ("call", MACRO, (V(y),), ())]
+    elif profile == "tiny":
+        # scoping skeleton: two variables, one variant of each basic scope kind
+        x, y = P[0], P[1]
+        a["out"] = [V(x), V(y)]
+        a["set"] = [(x, C(1)), (y, V(x)), (x, V(y))]
+        a["if"] = [(("flag", "f"),)]
+        a["for"] = [(y, "l12", None)]
+        a["with"] = [()]
+        a["macro"] = [()]
+        a["call"] = [("call", MACRO, (), ())]
+    elif profile == "tiny2":
+        # capture scopes and the namespace store: block set, filter block, recursive loop
+        x = P[0]
+        a["out"] = [V(x), ("nsget", NS, "x")]
+        a["set"] = [(x, C(1))]
+        a["nsnew"] = [V(x)]
+        a["nsset"] = [("add1", ("nsget", NS, "x"))]
+        a["if"] = [(("flag", "f"),)]
+        a["for"] = [(x, "l12", None)]
+        a["bset"] = [x]
+        a["filter"] = [True]
+        a["recfor"] = [x]
+    elif profile == "tiny3":
+        # macros: parameters, defaults, call blocks, caller
+        x, y = P[0], P[1]
+        a["out"] = [V(x)]
+        a["set"] = [(x, C(1)), (y, C(2))]
+        a["macro"] = [((x, None),), ((x, V(y)),)]
+        a["call"] = [("call", MACRO, (), ()), ("call", MACRO, (V(y),), ())]
+        a["caller"] = [("caller", (V(x),))]
+        a["callblock"] = [((y,), ("call", MACRO, (), ()))]
+        a["with"] = [((y, V(x)),)]
+        a["for"] = [(x, "l12", None)]
+        a["loopctl"] = [("break",)]
+        a["if"] = [(("flag", "f"),)]
     elif profile == "alias":
         a["out"] = [V(v) for v in P]
         a["set"] = [(v, C(1)) for v in P] + [(v, V(w)) for v, w in pairs]
@@ -669,7 +711,10 @@ def _enum(pool, profile, max_depth):
 TOP = (0, False, False)
 
 
-def programs(max_nodes, pool=POOL2, profile="mid", max_depth=3, shard=None, canonical=True, min_nodes=0):
+SYMMETRIC_PROFILES = ("full", "alias")
+
+
+def programs(max_nodes, pool=POOL2, profile="mid", max_depth=3, shard=None, canonical=None, min_nodes=0):
     """Every program with min_nodes..max_nodes statement nodes and nesting <= max_depth over the
     profile's alphabet, simplest (fewest nodes) first, in a fixed order.
 
@@ -678,6 +723,8 @@ def programs(max_nodes, pool=POOL2, profile="mid", max_depth=3, shard=None, cano
     shards are disjoint and their union is the whole space."""
     en = _enum(pool, profile, max_depth)
     k0, K = shard if shard is not None else (0, 1)
+    if canonical is None:
+        canonical = profile in SYMMETRIC_PROFILES
     for total in range(min_nodes, max_nodes + 1):
         if total == 0:
             if k0 == 0:
@@ -688,6 +735,8 @@ def programs(max_nodes, pool=POOL2, profile="mid", max_depth=3, shard=None, cano
             rests = en.lists(total - k, TOP)
             for i in range(k0, len(firsts), K):
                 first = firsts[i]
+                if canonical and not is_canonical((first,), pool):
+                    continue
                 for rest in rests:
                     prog = (first,) + rest
                     if canonical and not is_canonical(prog, pool):
@@ -695,7 +744,7 @@ def programs(max_nodes, pool=POOL2, profile="mid", max_depth=3, shard=None, cano
                     yield prog
 
 
-def count(max_nodes, pool=POOL2, profile="mid", max_depth=3, canonical=True, min_nodes=0):
+def count(max_nodes, pool=POOL2, profile="mid", max_depth=3, canonical=None, min_nodes=0):
     n = 0
     for _ in programs(max_nodes, pool, profile, max_depth, None, canonical, min_nodes):
         n += 1
@@ -882,6 +931,123 @@ def _frame_info(own, params, extra_loads=()):
     refs = set(first) | set(params)
     early = [n for n, kind in first.items() if kind == "store" and n not in params]
     return refs, early
+
+
+def _frames_of(st):
+    """nested frames opened by one statement: list of (own statements, params, extra loads)."""
+    k = st[0]
+    if k == "bset":
+        return [(st[2], (), ())]
+    if k == "for":
+        fr = [(st[4], (st[1],), ())]
+        if st[3] is not None:
+            fr.append(((), (st[1],), (st[3],)))
+        if st[5]:
+            fr.append((st[5], (), ()))
+        return fr
+    if k == "with":
+        return [(st[2], tuple(n for n, _ in st[1]), ())]
+    if k == "macro":
+        ps = tuple(p for p, _ in st[2]) + (("caller",) if _mentions_caller(st[3]) else ())
+        return [(st[3], ps, tuple(d for _, d in st[2] if d is not None))]
+    if k == "callblock":
+        return [(st[3], tuple(st[1]), ())]
+    if k == "filter":
+        return [(st[1], (), ())]
+    if k == "recfor":
+        return [(st[2], (st[1], "loop"), ())]
+    return []
+
+
+def _reads_below(stmts, name, own_level):
+    """is `name` read (load) in a frame nested inside `stmts`?  own_level=True: the
+    statements themselves belong to the enclosing frame (only deeper frames count);
+    a frame that declares `name` as a parameter hides the outer name for its subtree."""
+    for st in stmts:
+        if st[0] == "if":
+            for _, b in st[1]:
+                if _reads_below(b, name, own_level):
+                    return True
+            if st[2] and _reads_below(st[2], name, own_level):
+                return True
+            continue
+        for own, params, extra in _frames_of(st):
+            if name in params:
+                continue
+            acc = []
+            for e in extra:
+                _own_refs_expr(e, acc)
+            _own_refs(own, acc)
+            if any(n == name and kind == "load" for n, kind in acc):
+                return True
+            if _reads_below(own, name, True):
+                return True
+    return False
+
+
+def _late_store_hits(own, params, extra, outer_refs, hits):
+    refs, early = _frame_info(own, params, extra)
+    for n in early:
+        if any(n in r for r in outer_refs):
+            continue
+        # index of the own-level statement that holds the first mention (the store)
+        for idx, st in enumerate(own):
+            acc = []
+            _own_refs([st], acc)
+            if any(m == n for m, _ in acc):
+                break
+        before = list(own[:idx])
+        if own[idx][0] == "bset":
+            before.append(own[idx])
+        if _reads_below(before, n, True):
+            hits.append(n)
+    for st in _walk_own(own):
+        for o, ps, ex in _frames_of(st):
+            _late_store_hits(o, ps, ex, outer_refs + [refs], hits)
+
+
+def _walk_own(stmts):
+    """statements of a frame's own level (if-branches flattened)."""
+    for st in stmts:
+        yield st
+        if st[0] == "if":
+            for _, b in st[1]:
+                yield from _walk_own(b)
+            if st[2]:
+                yield from _walk_own(st[2])
+
+
+def late_store_pattern(prog):
+    """Structural predicate for the known deviation `late-store` (decided on the program
+    only): names n such that some frame's own code mentions n for the first time as the
+    target of an unconditional assignment (set / block set / macro / namespace creation,
+    not inside an `if`), no enclosing frame's own code mentions n, and a frame nested in
+    an earlier statement of that frame (or in the body of that very block set) reads n.
+    Returns the list of such names (empty = pattern absent)."""
+    hits = []
+    _late_store_hits(tuple(prog), (), (), [], hits)
+    return hits
+
+
+def loopctl_else_pattern(prog):
+    """Structural predicate for the (fixed) deviation `ctl-else`: a for loop with an else
+    block whose body contains break or continue at loop level."""
+    def has_ctl(stmts):
+        for st in stmts:
+            if st[0] in ("break", "continue"):
+                return True
+            if st[0] == "if":
+                if any(has_ctl(b) for _, b in st[1]) or (st[2] and has_ctl(st[2])):
+                    return True
+        return False
+
+    for st in prog:
+        if st[0] == "for" and st[5] and has_ctl(st[4]):
+            return True
+        for b in bodies(st):
+            if loopctl_else_pattern(b):
+                return True
+    return False
 
 
 class _Interp:
